@@ -1042,26 +1042,21 @@ def is_blocking(node: ast.AST, parent_type: ast.AST = None) -> bool:
             branch = node.body if literal_value(node.test) else node.orelse
         except ValueError:
             branches = [node.body, node.orelse]
-            return all(
-                any(is_blocking(child, parent_type) for child in branch) for branch in branches
-            )
+            return all(_body_is_blocking(branch, parent_type) for branch in branches)
         else:
-            return any(is_blocking(child, parent_type) for child in branch)
+            return _body_is_blocking(branch, parent_type)
 
     if isinstance(node, ast.While):
         try:
             test_value = literal_value(node.test)
         except ValueError:
-            pass
-        else:
-            if not test_value:
-                return False
+            return False  # The loop may run zero times
 
-            for child in node.body:
-                if isinstance(child, ast.Break):
-                    return False
-                if is_blocking(child, type(node)):
-                    return True
+        if not test_value:
+            return False
+
+        # An infinite loop can only be left with break, return or an exception.
+        return not any(_iter_loop_level_jumps(node.body, ast.Break))
 
     if isinstance(node, ast.For):
         try:
@@ -1071,29 +1066,39 @@ def is_blocking(node: ast.AST, parent_type: ast.AST = None) -> bool:
         if not any(True for _ in iterator):
             return False
 
-    if isinstance(node, (ast.For, ast.While)):
-        for child in node.body:
-            if is_blocking(child, type(node)):
-                return True
-            if is_blocking(child, parent_type):
-                return False
-            if isinstance(child, ast.If) and any(walk(child, (ast.Break, ast.Continue))):
-                try:
-                    test = literal_value(child.test)
-                except ValueError:
-                    return False
-                if test:
-                    return False
-
-        if isinstance(node, ast.For):
-            return False
-        try:
-            return literal_value(node.test)
-        except ValueError:
-            return False
+        # The first iteration is always entered; it must surely leave the function.
+        return _body_is_blocking(node.body, type(node))
 
     if isinstance(node, ast.With):
-        return any(is_blocking(child, parent_type) for child in node.body)
+        return _body_is_blocking(node.body, parent_type)
+
+    return False
+
+
+def _iter_loop_level_jumps(body: Sequence[ast.AST], jump_types) -> Iterable[ast.AST]:
+    """Iterate over break/continue statements that belong to the loop owning body."""
+    for child in body:
+        if isinstance(child, jump_types):
+            yield child
+        if isinstance(
+            child, (ast.For, ast.AsyncFor, ast.While, ast.FunctionDef, ast.AsyncFunctionDef, ast.ClassDef)
+        ):
+            continue  # Jumps in there belong to the nested loop
+        for field in ("body", "orelse", "finalbody", "handlers", "cases"):
+            yield from _iter_loop_level_jumps(getattr(child, field, ()), jump_types)
+
+
+def _body_is_blocking(body: Sequence[ast.AST], parent_type: ast.AST = None) -> bool:
+    """Check if control can never get past a sequence of statements."""
+    for child in body:
+        if is_blocking(child, parent_type):
+            return True
+        if is_blocking(child):
+            return False  # break or continue, nothing after it is reached
+        if parent_type is not None and any(
+            _iter_loop_level_jumps([child], (ast.Break, ast.Continue))
+        ):
+            return False  # May jump out of or restart the loop before reaching a blocking child
 
     return False
 
